@@ -310,7 +310,10 @@ class Model:
 # Generators
 # ---------------------------------------------------------------------------
 
-CONSTS = [0, 1, 2, 3, 5, 8, 'a', 'b', 'ab', (1, 2), ('a', 1), None]
+# -1/-2 and n / n + 2**61 - 1 have colliding hashes in CPython: distinct cached
+# expressions must stay distinct even when their hashes collide.
+CONSTS = [0, 1, 2, 3, 5, 8, 'a', 'b', 'ab', (1, 2), ('a', 1), None,
+          -1, -2, 2**61 - 1, 2**61, (-1, 'a'), (-2, 'a')]
 UNHASHABLE = [[1, 2], {'k': 1}, [], [('a',)]]
 KW = ['k', 'm', 'z']
 
